@@ -244,6 +244,39 @@ def job_signal(tier, seed):
     return ck.export()
 
 
+def job_pending_views(tier, seed):
+    """the pending bits of the core (ip[0..2], ipv) are visible in status words (st2, stt2, ...) but only interrupt delivery and
+    entry may change them: writing any of the 19 status/configuration words with any value leaves them alone. (A latched
+    request that a status-word write could clear would be lost; one it could set would be a spurious interrupt.)"""
+    from spec import pseudo_regs as PR
+    E = env()
+    ck = core.Check('C07', 'model_checking', tier, seed)
+    ex, st0, ctx = E.base()
+    regs = ctx['regs']
+    R = E.R()
+    v = z3.BitVec('v', 16)
+    for w in PR.ORDER:
+        st = st0.fork()
+        ex.exits = []
+        try:
+            r = ex.call(st, '@set_' + w, [regs.ptr, v])
+        except (Abort, UnwindBound) as x:
+            ck.inconclusive.append('PendingBitsReadOnly[%s]: %s' % (w, str(x)[:100]))
+            continue
+        if r is None or r is DEAD:
+            ck.inconclusive.append('PendingBitsReadOnly[%s]: no return' % w)
+            continue
+        post = regs.snapshot(r[0])
+        g = [post[f] == R[f] for f in ('ip[0]', 'ip[1]', 'ip[2]', 'ipv') if not post[f].eq(R[f])]
+        if not g:
+            ck.identical('PendingBitsReadOnly[%s]' % w, sample='writing %s (any value, any state) leaves ip[0..2] and ipv untouched: identical terms' % w if w in ('st2', 'stt2') else None)
+        else:
+            ck.prove('PendingBitsReadOnly[%s]' % w, E.inv(), z3.And(*g), vars=c03.vars_of(R, {'v': v}), sample='writing %s (any value, any state) leaves the pending bits ip[0..2] and ipv as they were' % w)
+    ck.ninstr += ex.ninstr
+    ck.nstates += len(PR.ORDER)
+    return ck.export()
+
+
 def _dispatch(fn, args):
     return fn(*args)
 
@@ -251,13 +284,13 @@ def _dispatch(fn, args):
 def run(tier, seed):
     ck = core.Check('C07', 'model_checking', tier, seed)
     ck.funcs.update(['ICU::Trigger', 'ICU::TriggerSingle', 'ICU::Acknowledge', 'ICU::GetRequest', 'ICU::SetEnable', 'ICU::SetEnableVectored', 'ICU::GetEnable', 'ICU::GetEnableVectored', 'ICU::GetVector', 'std::bitset<16> operators',
-                     'Interpreter::Run (latch sampling, repeat bookkeeping, interrupt block)', 'Interpreter::SignalInterrupt', 'Interpreter::SignalVectoredInterrupt', 'PushPC', 'ContextStore'])
+                     'Interpreter::Run (latch sampling, repeat bookkeeping, interrupt block)', 'Interpreter::SignalInterrupt', 'Interpreter::SignalVectoredInterrupt', 'PushPC', 'ContextStore', 'RegisterState::Set<W> for the 19 status/configuration words (pending bits read-only)'])
     ck.assumptions += ['controller: the 64-bit bitset words hold 16-bit values (the only writers are bitset<16> operations); handlers installed; handler calls are events',
                        'core: Inv, prpage == 0, pc < 0x3FFFE, no block repeat active, the dispatched instruction is a nop; the five entry cases partition the state space (their disjunction is valid by construction of the conditions)',
                        'expected post-state is assembled with the real PushPC / ContextStore helpers applied to the same pre-state (their own correctness is C08)',
                        'wiring peripheral -> IRQ number (timer0 0xA, timer1 0x9, BTDMP 0xB, APBP 0xE, DMA 0xF) lives in closures built by Teakra::Impl and is examined with the object graph (C12/C17)']
     ck.bounds += ['one Trigger / one Run cycle from an arbitrary state; "once per latched request" and arbitrary interleavings follow by induction: the latch and ip bit are consumed exactly at entry (paper)']
-    jobs = [(job_icu, (tier, seed)), (job_signal, (tier, seed))] + [(job_core, ('none', 0, tier, seed))] + [(job_core, (c, k, tier, seed)) for c in CASES[1:] for k in (0, 1)]
+    jobs = [(job_icu, (tier, seed)), (job_signal, (tier, seed)), (job_pending_views, (tier, seed))] + [(job_core, ('none', 0, tier, seed))] + [(job_core, (c, k, tier, seed)) for c in CASES[1:] for k in (0, 1)]
     for r in core.pmap(_dispatch, jobs):
         if '__error__' in r:
             ck.engine_errors.append(r['__error__'])
